@@ -32,12 +32,13 @@ def disc (s : Stack) : TStore SvcKey × List (Bool × SvcKey × Addr) := (s.foun
 @[simp] theorem disc_armTtl (s : Stack) (ttl : Nat) (cb : Cb) : disc (s.armTtl ttl cb).1 = disc s := by
   unfold armTtl; split <;> rfl
 @[simp] theorem disc_setInst (s : Stack) (i : Nat) (x : Instance) : disc (s.setInst i x) = disc s := rfl
-@[simp] theorem disc_setTask (s : Stack) (i : Nat) (x : TaskSt) : disc (s.setTask i x) = disc s := rfl
+@[simp] theorem disc_setTask (s : Stack) (i : Tid) (x : TaskSt) : disc (s.setTask i x) = disc s := rfl
 
 @[simp] theorem disc_sendSd (s : Stack) (es : List SDEntry) (d : Dest) : disc (s.sendSd es d) = disc s := by
   unfold sendSd; split; rfl; simp only []; split; rfl; split <;> rfl
 
 @[simp] theorem disc_with_flushLog (s : Stack) (x : List (Dest × List SDEntry)) : disc { s with flushLog := x } = disc s := rfl
+@[simp] theorem disc_with_subLog (s : Stack) (x : List (Addr × Nat × List Eventgroup)) : disc { s with subLog := x } = disc s := rfl
 @[simp] theorem disc_flushTo (s : Stack) (es : List SDEntry) (d : Dest) : disc (s.flushTo es d) = disc s := by
   unfold flushTo; rw [disc_sendSd]; rfl
 
@@ -55,18 +56,18 @@ def disc (s : Stack) : TStore SvcKey × List (Bool × SvcKey × Addr) := (s.foun
   unfold collectorTimeout; split; rfl; simp only []; rw [disc_flushTo]; rfl
 
 @[simp] theorem disc_createTask (s : Stack) (k : TaskKind) : disc (s.createTask k).1 = disc s := rfl
-@[simp] theorem disc_cancelTask (s : Stack) (t : Nat) : disc (s.cancelTask t) = disc s := by
+@[simp] theorem disc_cancelTask (s : Stack) (t : Tid) : disc (s.cancelTask t) = disc s := by
   unfold cancelTask; split; rfl; split; rfl; split <;> simp
-@[simp] theorem disc_sleepFor (s : Stack) (tid : Nat) (t : TaskSt) (d : Nat) (pc : Pc) : disc (s.sleepFor tid t d pc) = disc s := by
+@[simp] theorem disc_sleepFor (s : Stack) (tid : Tid) (t : TaskSt) (d : Nat) (pc : Pc) : disc (s.sleepFor tid t d pc) = disc s := by
   unfold sleepFor; split <;> simp
-@[simp] theorem disc_finish (s : Stack) (tid : Nat) (t : TaskSt) : disc (s.finish tid t) = disc s := rfl
-@[simp] theorem disc_sleepDone (s : Stack) (tid : Nat) : disc (s.sleepDone tid) = disc s := by
+@[simp] theorem disc_finish (s : Stack) (tid : Tid) (t : TaskSt) : disc (s.finish tid t) = disc s := rfl
+@[simp] theorem disc_sleepDone (s : Stack) (tid : Tid) : disc (s.sleepDone tid) = disc s := by
   unfold sleepDone; split; rfl; split <;> simp
 
 @[simp] theorem disc_sendOffer (s : Stack) (i : Nat) (r : Dest) (b : Bool) : disc (s.sendOffer i r b) = disc s := by
   unfold sendOffer; split; rfl; split; rfl; simp
 
-@[simp] theorem disc_stepOffer (s : Stack) (tid : Nat) (t : TaskSt) (i : Nat) : disc (s.stepOffer tid t i) = disc s := by
+@[simp] theorem disc_stepOffer (s : Stack) (tid : Tid) (t : TaskSt) (i : Nat) : disc (s.stepOffer tid t i) = disc s := by
   unfold stepOffer
   simp only []
   split
@@ -169,7 +170,7 @@ def disc (s : Stack) : TStore SvcKey × List (Bool × SvcKey × Addr) := (s.foun
   unfold subscriberStop; split; rfl
   simp only []
   have h1 : disc (match ({ s with alive := false } : Stack).subTask with
-      | some tid => { ({ s with alive := false } : Stack).cancelTask tid with subTask := none }
+      | some tid => { ({ s with alive := false } : Stack).cancelTask (.subscribe, tid) with subTask := none }
       | none => ({ s with alive := false } : Stack)) = disc s := by
     split
     · show disc (({ s with alive := false } : Stack).cancelTask _) = disc s; rw [disc_cancelTask]; rfl
@@ -178,7 +179,7 @@ def disc (s : Stack) : TStore SvcKey × List (Bool × SvcKey × Addr) := (s.foun
   · rw [foldl_pres disc _ (fun s p => by simp)]; exact h1
   · exact h1
 
-@[simp] theorem disc_stepSubscribe (s : Stack) (tid : Nat) (t : TaskSt) : disc (s.stepSubscribe tid t) = disc s := by
+@[simp] theorem disc_stepSubscribe (s : Stack) (tid : Tid) (t : TaskSt) : disc (s.stepSubscribe tid t) = disc s := by
   unfold stepSubscribe
   simp only []
   have key : ∀ st : Stack, disc (List.foldl (fun s p => s.sendSubscribe s.tm.subscribeTtl p.1 p.2) st (groupEntries st.subEntries)) = disc st :=
@@ -210,7 +211,7 @@ def disc (s : Stack) : TStore SvcKey × List (Bool × SvcKey × Addr) := (s.foun
   · simp
   · rw [disc_replay]; rfl
 
-@[simp] theorem disc_stepFind (s : Stack) (tid : Nat) (t : TaskSt) : disc (s.stepFind tid t) = disc s := by
+@[simp] theorem disc_stepFind (s : Stack) (tid : Tid) (t : TaskSt) : disc (s.stepFind tid t) = disc s := by
   unfold stepFind; frame_cases
 
 @[simp] theorem disc_discoveryStart (s : Stack) : disc s.discoveryStart = disc s := by
